@@ -2,6 +2,7 @@
 //! and helpers used by several property checks.
 pub use mbvcore::*;
 pub mod battery;
+pub mod hbattery;
 
 /// Common `main` of every check binary.
 pub fn main_wrap(prop: &str, run: fn(&mut Ctx)) {
